@@ -20,4 +20,10 @@ git apply "$SRC/patch.diff" || { echo "$S: PATCH DOES NOT APPLY"; exit 3; }
 go build ./... || { echo "$S: DOES NOT BUILD"; exit 3; }
 R_MUT=$(go test -vet=off -count=1 -run 'TestSeedDemo' $PKG 2>&1 | tail -1)
 R_SUITE=$(go test -vet=off -count=1 -timeout 25m -skip 'TestSeedDemo' ./... 2>&1 | grep -E '^(ok|FAIL|---)' | tr '\n' ' ')
+# socket/port based tests flake when other suites run on the machine: re-run failing top-level tests alone
+FAILED=$(echo "$R_SUITE" | grep -oE -- '--- FAIL: [A-Za-z0-9_]+' | awk '{print $3}' | sort -u | tr '\n' '|' | sed 's/|$//')
+if [ -n "$FAILED" ]; then
+  R_RETRY=$(go test -vet=off -count=2 -run "^($FAILED)\$" . 2>&1 | tail -1)
+  R_SUITE="$R_SUITE || retry-alone($FAILED)=[$R_RETRY]"
+fi
 echo "$S: demo-clean=[$R_CLEAN] demo-with-patch=[$R_MUT] suite-with-patch=[$R_SUITE]"
